@@ -98,7 +98,7 @@ def run(ctx):
     quick = ctx.tier == "quick"
     rng = ctx.rng("gen")
     cases = []
-    for i in range(28 if quick else 400):
+    for i in range(28 if quick else 160):
         spec, kind = gen_spec(rng)
         n = njobs(spec)
         k = rng.randint(1, max(1, n - 1)) if rng.random() < 0.85 else n
